@@ -911,15 +911,29 @@ class EntryGraph:
             else:
                 return None
         rest = proj[i:]
-        if not rest:
-            return v
-        # (enum as Variant).field : payload of a tracked variant
-        if len(rest) == 2 and isinstance(rest[0], dict) and 'v' in rest[0] and isinstance(rest[1], dict) and 'f' in rest[1]:
-            if v is not None and v[0] == 't' and len(v) > 2 and v[3] == rest[0]['v']:
-                pay = v[2]
-                if rest[1]['f'] < len(pay):
-                    return pay[rest[1]['f']]
-        return None
+        # walk field / downcast projections through tracked aggregates
+        j = 0
+        while j < len(rest):
+            e = rest[j]
+            if v is None or not isinstance(e, dict):
+                return None
+            if 'v' in e:
+                # (enum as Variant).field : payload of a tracked variant
+                if v[0] == 't' and len(v) > 3 and v[3] == e['v'] and j + 1 < len(rest) and isinstance(rest[j + 1], dict) and 'f' in rest[j + 1]:
+                    pay = v[2]
+                    f = rest[j + 1]['f']
+                    v = pay[f] if f < len(pay) else None
+                    j += 2
+                    continue
+                return None
+            if 'f' in e:
+                if v[0] == 's' and e['f'] < len(v[1]):
+                    v = v[1][e['f']]
+                    j += 1
+                    continue
+                return None
+            return None
+        return v
 
     def _target_place(self, env, cid, pl):
         """(ctx, local) cell designated by a place if it is a whole tracked cell"""
@@ -957,6 +971,11 @@ class EntryGraph:
             if any(x is not None for x in pay):
                 return ('t', self.crate.discr_of(rv['adt'], rv['vidx']), pay, rv['vidx'])
             return ('t', self.crate.discr_of(rv['adt'], rv['vidx']))
+        if k == 'agg' and (rv['kind'] == 'tuple' or (rv['kind'] == 'adt' and not rv.get('is_enum'))):
+            pay = tuple(self._payload_val(self._val_op(env, cid, o)) for o in rv['ops'])
+            if any(x is not None for x in pay):
+                return ('s', pay)
+            return None
         if k == 'discr':
             tgt = self._target_place(env, cid, rv['pl'])
             if tgt is not None:
@@ -991,7 +1010,7 @@ class EntryGraph:
     @staticmethod
     def _payload_val(v):
         """abstract values that may be stored inside a tracked variant (no references to frames)"""
-        if v is not None and v[0] in ('b', 't'):
+        if v is not None and v[0] in ('b', 't', 's'):
             return v
         return None
 
@@ -1132,7 +1151,7 @@ class EntryGraph:
                 else:
                     dest = pt['dest']
                     if not dest.get('p'):
-                        if v0 is not None and v0[0] in ('b', 't', 'atom'):
+                        if v0 is not None and v0[0] in ('b', 't', 'atom', 's'):
                             env[(p.id, dest['l'])] = v0
                         else:
                             env.pop((p.id, dest['l']), None)
